@@ -99,6 +99,8 @@ InitState(cfg) ==
    br     |-> [e \in E |-> <<>>],        \* bridges (Bridge.tla): stream handles driven by copy_bidirectional
    mux    |-> [e \in E |-> TRUE],
    wire   |-> [e \in E |-> <<>>],
+   unfl   |-> [e \in E |-> <<>>],        \* messages handed to the sink (start_send) and not yet flushed: invisible to the peer
+   fl     |-> [e \in E |-> FALSE],       \* the send arm of the task is suspended in poll_flush
    sink   |-> [e \in E |-> "open"],      \* "open" | "cut" | "closed"
    src    |-> [e \in E |-> "open"],      \* "open" | "ended"
    ctr    |-> 1,                         \* ghost: next unique id for connects / binds / datagrams
@@ -149,7 +151,7 @@ SenderAlive(s, e, h) ==
   \E id \in DOMAIN s.slot[e] : s.slot[e][id].k = "Est" /\ s.slot[e][id].h = h /\ s.slot[e][id].rd
 
 (* nothing is in flight and no task has work left: whatever is still open stays as it is unless an application acts *)
-QuietS(s) == \A e \in E : s.outq[e] = <<>> /\ s.wire[e] = <<>> /\ s.drops[e] = <<>> /\ s.rxblk[e].k = "none"
+QuietS(s) == \A e \in E : s.outq[e] = <<>> /\ s.wire[e] = <<>> /\ s.unfl[e] = <<>> /\ s.drops[e] = <<>> /\ s.rxblk[e].k = "none"
 
 (* a writer that is still open and out of credit has a counterpart that can still grant it credit or tell it to stop:
    once the peer endpoint has let go of the stream (its slot is gone) and nothing is in flight, this end knows
@@ -661,9 +663,11 @@ RecvOne(s, e) ==
        [] m.op = "err" -> BeginWd([s1 EXCEPT !.src[e] = "ended"], e, FALSE, "ws")
        [] OTHER -> Process(AutoPong(s1, e, m), e, m, FALSE)
 
-(* move the head of the outbound queue to the link, counting Push frames for C03 *)
+(* hand the head of the outbound queue to the sink (start_send), counting Push frames for C03.  The sink buffers: the
+   message reaches the link -- becomes visible to the peer -- only when the sink is flushed (Flush), which the main loop
+   does right after every message and wind_down only as part of closing the sink. *)
 PutOnWire(s, e, m) ==
-  LET s1 == [s EXCEPT !.wire[e] = Append(@, m), !.snt[e] = @ + 1, !.obs.sent = Append(@, m)] IN
+  LET s1 == [s EXCEPT !.unfl[e] = Append(@, m), !.snt[e] = @ + 1, !.obs.sent = Append(@, m)] IN
   IF m.op = "push" /\ m.w \in DOMAIN s.hnd[e]
   THEN LET s2 == [s1 EXCEPT !.hnd[e][m.w].pshWire = @ + 1]
            x  == s2.hnd[e][m.w]
@@ -672,6 +676,9 @@ PutOnWire(s, e, m) ==
 
 SendOne(s, e) ==
   PutOnWire([s EXCEPT !.outq[e] = Tail(@)], e, Head(s.outq[e]))
+
+(* poll_flush completes: everything the sink has buffered is on the link *)
+Flush(s, e) == [s EXCEPT !.wire[e] = @ \o s.unfl[e], !.unfl[e] = <<>>, !.fl[e] = FALSE]
 
 (* schedule_ping_task, one poll: an interval timer of period kaI whose first tick is immediate (the timer is created
    by the first poll of the task) and which skips missed ticks (MissedTickBehavior::Skip: the schedule stays aligned).
@@ -709,7 +716,7 @@ Finalize(s, e) ==
   LET s1 == CloseAll(s, e, DOMAIN s.slot[e])
       (* the task and with it the WebSocket object are destroyed: the transport is closed, so the
          peer's source ends after whatever is still in flight *)
-      s2 == [s1 EXCEPT !.slot[e] = <<>>, !.drops[e] = <<>>, !.dropsClosed[e] = TRUE,
+      s2 == [s1 EXCEPT !.slot[e] = <<>>, !.drops[e] = <<>>, !.dropsClosed[e] = TRUE, !.unfl[e] = <<>>, !.fl[e] = FALSE,
                        !.task[e].ph = "done", !.rxblk[e] = [k |-> "none", h |-> 0, m |-> NoMsg],
                        !.wire[e] = Append(@, MkMsg("eos"))]
       (* the Task object is destroyed: every receiver waiting on one of its channels is woken *)
@@ -725,8 +732,9 @@ CloseSink(s, e) ==
                /\ s.task[e].res # "keepalive"
                /\ s.snt[e] < s.flushTo[e]
             THEN Flag(s, "C08.FlushOnDrop") ELSE s
+  (* closing a working sink flushes what it has buffered, then sends Close *)
   IN IF s.sink[e] = "open"
-     THEN [s0 EXCEPT !.sink[e] = "closed", !.wire[e] = Append(@, MkMsg("close")),
+     THEN [s0 EXCEPT !.sink[e] = "closed", !.wire[e] = Append(@ \o s.unfl[e], MkMsg("close")), !.unfl[e] = <<>>,
                      !.obs.sent = Append(@, MkMsg("close"))]
      ELSE s0
 
@@ -767,7 +775,26 @@ RECURSIVE DropsAll(_, _)
 DropsAll(s, e) ==
   IF s.task[e].ph # "run" \/ s.drops[e] = <<>> THEN s ELSE DropsAll(DropOne(s, e), e)
 
-TaskPoll(s, e, gr, gs) ==
+(* poll_flush inside the send arm of the main loop: a failed sink ends the loop *)
+FlushStep(s, e) ==
+  IF s.sink[e] = "open" THEN Flush(s, e) ELSE BeginWd([s EXCEPT !.fl[e] = FALSE], e, FALSE, "ws")
+
+(* process_message_to_send_task, one poll: loop { poll_ready; take a message; start_send; poll_flush }.  gs = the sink
+   accepts one message in this poll, gf = the sink completes a flush in this poll (else poll_flush is Pending and the
+   arm stays suspended there: fl) *)
+SendStage(a2, e, gs, gf) ==
+  IF a2.task[e].ph # "run" THEN a2
+  ELSE LET f0 == IF a2.fl[e] THEN (IF gf = 1 THEN FlushStep(a2, e) ELSE a2) ELSE a2 IN
+       IF f0.task[e].ph # "run" \/ f0.fl[e] THEN f0
+       ELSE IF f0.sink[e] \in {"cut", "closed"} THEN BeginWd(f0, e, FALSE, "ws")
+       ELSE IF gs = 1 /\ f0.outq[e] # <<>>
+            THEN (IF f0.sink[e] = "softcut"     \* start_send fails after the message was taken
+                  THEN BeginWd([f0 EXCEPT !.outq[e] = Tail(@)], e, FALSE, "ws")
+                  ELSE LET s1 == SendOne(f0, e) IN
+                       IF gf = 1 THEN FlushStep(s1, e) ELSE [s1 EXCEPT !.fl[e] = TRUE])
+       ELSE f0
+
+TaskPollF(s, e, gr, gs, gf) ==
   LET s0 == Obs(s, [NoObs EXCEPT !.res = "pending"]) IN
   IF s.task[e].ph = "done" THEN {}
   ELSE IF s.task[e].ph # "run" THEN {WdRun(s0, e, gr, gs)}
@@ -778,18 +805,14 @@ TaskPoll(s, e, gr, gs) ==
                  /\ a1.wire[Peer(e)] # <<>>
               THEN RecvOne(a1, e) ELSE a1
         (* 2. process_message_to_send_task *)
-        a3 == IF a2.task[e].ph # "run" THEN a2
-              ELSE IF a2.sink[e] \in {"cut", "closed"} THEN BeginWd(a2, e, FALSE, "ws")
-              ELSE IF gs = 1 /\ a2.outq[e] # <<>>
-                   THEN (IF a2.sink[e] = "softcut"     \* start_send fails after the message was taken
-                         THEN BeginWd([a2 EXCEPT !.outq[e] = Tail(@)], e, FALSE, "ws")
-                         ELSE SendOne(a2, e))
-              ELSE a2
+        a3 == SendStage(a2, e, gs, gf)
         (* 3. schedule_ping_task *)
         a3k == IF a3.task[e].ph = "run" THEN KaStep(a3, e) ELSE a3
         (* 4. process_dropped_flows_task *)
         a4 == DropsAll(a3k, e)
     IN {a4}
+
+TaskPoll(s, e, gr, gs) == TaskPollF(s, e, gr, gs, 1)
 
 (* ================================================================== *)
 (* Environment                                                         *)
